@@ -27,7 +27,29 @@ FILES = c08.FILES + ['pyglove/ext/evolution/recombinators.py',
 NOTIFY = '_notify_field_updates'
 
 
-def _is_allowed_skip_test(node):
+def _update_vars(fn):
+  """Locals holding the FieldUpdate(s) of this call: assigned from a write
+  primitive / _sym_rebind, or lists those are appended to."""
+  out = set()
+  src = ('_set_item_without_permission_check', '_set_item_of_current_tree', '_sym_rebind')
+  for n in ast.walk(fn):
+    if isinstance(n, ast.Assign) and isinstance(n.value, ast.Call) and \
+        (A.call_name(n.value) or '').split('.')[-1] in src:
+      out |= set(A.assigned_names(n.targets[0]))
+  changed = True
+  while changed:
+    changed = False
+    for n in ast.walk(fn):
+      if isinstance(n, ast.Call) and (A.call_name(n) or '').endswith('.append') and n.args \
+          and isinstance(n.args[0], ast.Name) and n.args[0].id in out:
+        lst = (A.call_name(n) or '').split('.')[0]
+        if lst not in out:
+          out.add(lst)
+          changed = True
+  return out
+
+
+def _is_allowed_skip_test(node, update_vars=frozenset({'update', 'updates'})):
   if node.kind != 'test':
     return False
   txt = A.unparse(node.ast, 300)
@@ -35,7 +57,7 @@ def _is_allowed_skip_test(node):
     return True
   # truthiness / None test of the update variable(s)
   names = A.names_read(node.ast)
-  if names and names <= {'update', 'updates'}:
+  if names and names <= set(update_vars):
     return True
   return False
 
@@ -73,8 +95,9 @@ def rule_a(ctx):
     # of the allowed-skip tests (true edge for `skip_notification`-style tests
     # is handled by label below)
     blocked_edges = set()
+    uvars = _update_vars(f.node)
     for n in g.nodes:
-      if _is_allowed_skip_test(n):
+      if _is_allowed_skip_test(n, uvars):
         txt = A.unparse(n.ast, 300)
         skip_lab = 'true' if 'skip_notification' in txt and 'is_change' not in txt else 'false'
         for m, lab in n.succ:
